@@ -271,13 +271,14 @@ def snapshot(s):
 def make_template(side='long', entry=None, stop=None, take=None, qty=1.0, on_open_exits=False,
                   entry_step=0, name='T1', update_take=None, update_stop=None, liquidate_at=None,
                   cancel_entry=True, reduced_stop=None, record_candles=False, increased=None, extra_hooks=None,
-                  exit_qty_from_position=False):
+                  exit_qty_from_position=False, reenter=False):
     """T-family template.
     entry: price or list of (qty, price) rows (None -> at market = current price)
     stop/take: price or list of rows, declared in go_long/go_short (or in on_open_position if on_open_exits)
     update_take/update_stop: callable(strategy) -> rows, applied in update_position
     reduced_stop: rows set in on_reduced_position
     liquidate_at: strategy index at which liquidate() is called
+    reenter: a new entry is declared at the first step after a trade has closed (consecutive trades)
     """
     Strategy = base_strategy()
 
@@ -308,7 +309,7 @@ def make_template(side='long', entry=None, stop=None, take=None, qty=1.0, on_ope
             cp = lambda a: None if a is None else [tuple(r) for r in a]
             self._rec('after', index=self.index,
                       active=[o for o in self.orders_active()], is_open=self.position.is_open,
-                      sl=cp(self._stop_loss), tp=cp(self._take_profit), ptype=self.position.type)
+                      sl=cp(self.stop_loss), tp=cp(self.take_profit), ptype=self.position.type)
 
         def orders_active(self):
             from jesse.store import store
@@ -370,6 +371,8 @@ def make_template(side='long', entry=None, stop=None, take=None, qty=1.0, on_ope
             self._rec('on_reduced_position', order=order, stop_loss=self.stop_loss, take_profit=self.take_profit)
 
         def on_close_position(self, order):
+            if reenter:
+                self.vars['entered'] = False
             self._rec('on_close_position', order=order)
 
         def on_cancel(self):
